@@ -72,11 +72,13 @@ def _topo_body(cases):
         "Eval vm_compute in (diffs topo_case_diff cases).\n"
 
 
-def _launch(ctx, strength):
+def _launch(ctx, strength, corr=True):
     """Start the implementation-side processes concurrently: numba compiles every kernel family anew in each process
     (15-40 s each), so the four operator families run in four processes and the driver combines their vectors."""
     ex = ThreadPoolExecutor(max_workers=5)
-    ctx.futs = {"corr": ex.submit(ctx.run_impl, "c01_impl.py", {"strength": strength, "parts": ["arrays", "rule", "topo"]}, 2400)}
+    ctx.futs = {}
+    if corr:
+        ctx.futs["corr"] = ex.submit(ctx.run_impl, "c01_impl.py", {"strength": strength, "parts": ["arrays", "rule", "topo"]}, 2400)
     for w in ("V", "K", "W", "Kt"):
         ctx.futs[w] = ex.submit(ctx.run_impl, "c01_impl.py", {"strength": strength, "parts": ["search"], "operator": w}, 3400,
                                 4)
@@ -185,8 +187,16 @@ def _norm(x):
 
 
 def search(ctx, strength):
-    if not hasattr(ctx, "futs") or ctx.futs_strength != strength:
-        _launch(ctx, strength)
+    if not hasattr(ctx, "futs"):
+        _launch(ctx, strength, corr=False)
+    _collect(ctx)
+    if strength == "thorough" and ctx.futs_strength != "thorough" and not ctx.failures:
+        # something broke and the quick inputs show no failing input: widen the search
+        _launch(ctx, "thorough", corr=False)
+        _collect(ctx)
+
+
+def _collect(ctx):
     vec = {}
     for w in ("V", "K", "W", "Kt"):
         res = ctx.futs[w].result()
